@@ -80,6 +80,18 @@ CLAIMED = {
         "dynamic symbolic execution of the real Python code (vx) + z3 LIA/NRA, path-witness replay",
         "DESIGN.md section 4 C11",
     ),
+    "C14": (
+        "model_checking",
+        "Real Charge methods executed with symbolic array values, cluster numbers and cluster positions (any real, including negative and "
+        "beyond-range), pixel sizes symbolic (single cluster) or from a stated list: binning on 2x3 / 1x2 geometries with 1..2 clusters, all "
+        "histories of <= 3 operations over {array add, cluster add, read, reset} (+ final read) on a 1x2 geometry, against an independent "
+        "per-pixel accumulator; the binning loop runs un-jitted with numba index semantics, so an index outside the array is a reported event.",
+        "Real arithmetic (positions exactly on pixel borders follow exact floor); removals are outside (the statement does not define them); "
+        "the cluster table is a real pandas DataFrame holding symbolic cells; numba.njit is the identity during the symbolic run and replays "
+        "run the real jitted code with numba bounds checking on.",
+        "dynamic symbolic execution of the real Python code (vx) + z3 LRA/LIA, path-witness replay",
+        "DESIGN.md section 4 C14",
+    ),
 }
 
 NOT_APPLICABLE = {
